@@ -4,6 +4,47 @@
 (* one recorded history of interleaved calls on a real bitio.Buffer ("buffer").                  *)
 EXTENDS BitIO, Json
 Trace == ndJsonDeserialize("trace.ndjson")
+
+(* The as-built transcription (ReaderStackOps) PREDICTS every call on a composition of leaf / section / multi / zero readers    *)
+(* exactly: count, end-of-data, refusal, seek result, cursor after the call.  A recorded call that differs is model drift (the  *)
+(* transcription no longer describes the code), reported as <<"DRIFT", l, call>>; whether it is also a violation is decided by   *)
+(* the requirement (CheckHistory) on the same event.                                                                            *)
+RS == INSTANCE ReaderStackOps
+RECURSIVE PureBit(_), Conv(_, _)
+PureBit(tm) == CASE tm.t \in {"leaf", "zero"} -> TRUE
+                 [] tm.t = "section"          -> PureBit(tm.r)
+                 [] tm.t = "multi"            -> \A i \in DOMAIN tm.rs : PureBit(tm.rs[i])
+                 [] OTHER                     -> FALSE
+\* a harness leaf is bitio.NewBitReader(bytes, n): a section of n bits over the byte source
+Conv(tm, leaves) ==
+    CASE tm.t = "leaf"    -> RS!Sec(RS!Leaf(0, (Len(leaves[tm.id]) + 7) \div 8), 0, Len(leaves[tm.id]))
+      [] tm.t = "zero"    -> RS!Zero(tm.n)
+      [] tm.t = "section" -> RS!Sec(Conv(tm.r, leaves), tm.off, tm.n)
+      [] OTHER            -> RS!Mul([i \in DOMAIN tm.rs |-> Conv(tm.rs[i], leaves)])
+SameRead(r, ev) == ev.k = Len(r.bits) /\ ev.eof = (r.err = "eof") /\ ev.err = (r.err \in {"offset", "neg", "panic"})
+PosSame(ev, p) == ev.pa < 0 \/ ev.pa = p
+RECURSIVE AsBuilt(_, _, _, _)
+AsBuilt(t, ops, i, cur) ==        \* 0, or the index of the first call the transcription does not predict
+    IF i > Len(ops) THEN 0
+    ELSE LET ev == ops[i]
+             pos == cur[ev.h]
+         IN CASE ev.op = "read" ->
+                   LET r == RS!RAt(t, ev.n, pos) IN
+                   IF SameRead(r, ev) /\ PosSame(ev, pos + Len(r.bits)) /\ ~ev.hang
+                   THEN AsBuilt(t, ops, i + 1, [cur EXCEPT ![ev.h] = pos + Len(r.bits)]) ELSE i
+              [] ev.op = "readat" ->
+                   IF SameRead(RS!RAt(t, ev.n, ev.off), ev) /\ PosSame(ev, pos) /\ ~ev.hang THEN AsBuilt(t, ops, i + 1, cur) ELSE i
+              [] ev.op = "readfull" ->
+                   LET r == RS!ReadAtFull(t, ev.n, pos) IN
+                   IF ~r.hang /\ ~ev.hang /\ ((r.err = "nil") = (~ev.eof /\ ~ev.err)) /\ PosSame(ev, pos + Len(r.bits))
+                   THEN AsBuilt(t, ops, i + 1, [cur EXCEPT ![ev.h] = pos + Len(r.bits)]) ELSE i
+              [] ev.op = "seek" ->
+                   LET s == RS!SeekTop(t, pos, ev.off, ev.wh) IN
+                   IF s.err = ev.err /\ (~s.err => ev.res = s.pos) /\ PosSame(ev, s.pos) /\ ~ev.hang
+                   THEN AsBuilt(t, ops, i + 1, [cur EXCEPT ![ev.h] = s.pos]) ELSE i
+              [] ev.op = "clone" -> AsBuilt(t, ops, i + 1, [h \in DOMAIN cur \cup {ev.h2} |-> IF h = ev.h2 THEN 0 ELSE cur[h]])
+              [] OTHER -> AsBuilt(t, ops, i + 1, cur)
+DriftOf(e) == IF e.kind = "hist" /\ e.panic = "" /\ PureBit(e.term) THEN AsBuilt(Conv(e.term, e.leaves), e.ops, 1, [h \in {0} |-> 0]) ELSE 0
 VARIABLE l
 TInit == l = 1
 TNext == /\ l <= Len(Trace)
@@ -16,8 +57,10 @@ TNext == /\ l <= Len(Trace)
             ELSE IF e.kind = "buffer"
             THEN LET r == CheckBuffer(e.bops) IN
                  IF r[1] = 0 THEN TRUE ELSE PrintT(<<"REJECT", l, r[2], r[1]>>)
-            ELSE LET r == CheckHistory(e.term, e.leaves, e.ops) IN
-                 IF r[1] = 0 THEN TRUE ELSE PrintT(<<"REJECT", l, e.ops[r[1]].op \o "." \o r[2], r[1]>>)
+            ELSE LET r == CheckHistory(e.term, e.leaves, e.ops)
+                     d == DriftOf(e)
+                 IN /\ (IF r[1] = 0 THEN TRUE ELSE PrintT(<<"REJECT", l, e.ops[r[1]].op \o "." \o r[2], r[1]>>))
+                    /\ (IF d = 0 THEN TRUE ELSE PrintT(<<"DRIFT", l, d>>))
          /\ l' = l + 1
 TSpec == TInit /\ [][TNext]_l
 Consumed == TLCGet("stats").diameter - 1 = Len(Trace)
